@@ -13,7 +13,19 @@
  *   ent FAIL                       open fails
  *   entos <n> <stream hex> <script>  a session asked for n bytes with the read answers of <script>
  * (nothing queued: open fails; a session asked for another length than it was written for: EIO.)
+ *
+ * Both components:
+ *   entgen <count> <len> <seed>    queue <count> answers of <len> bytes each, computed from <seed> (gen_bytes; the model
+ *                                  computes the same bytes): the 257 answers a request of 2^32 bytes consumes in one line
+ *   bigread <n> <tail> full|cmp    ONE crypto_entropy_read(buf, n), n <= 2^32 + 2^20, made by a forked child into a
+ *                                  shared anonymous mapping, against the same request made by this process as calls of
+ *                                  65536 bytes and a last shorter one (see bigread() below)
  */
+#define _DEFAULT_SOURCE 1
+#include <sys/mman.h>
+#include <sys/wait.h>
+#include <unistd.h>
+
 #include "hcommon.h"
 #ifdef DRBG_OS
 #include "hfakeos.h"
@@ -101,6 +113,28 @@ q_push(const char * s, const char * n, const char * script)
 	q_n++;
 }
 
+/* answer number i of `entgen <count> <len> <seed>`: a 32-bit linear congruential sequence (Model.EntropyStep.genBytes) */
+static void
+q_push_gen(uint32_t seed, uint32_t i, size_t len)
+{
+	uint32_t x = seed * 2654435761u + i;
+	size_t j;
+
+	if (q_n == q_cap) {
+		q_cap = q_cap ? 2 * q_cap : 16;
+		q = realloc(q, q_cap * sizeof(struct answer));
+	}
+	q[q_n].fail = 0;
+	q[q_n].buf = malloc(len ? len : 1);
+	for (j = 0; j < len; j++) {
+		x = x * 1103515245u + 12345u;
+		q[q_n].buf[j] = (uint8_t)(x >> 16);
+	}
+	q[q_n].len = q[q_n].n = len;
+	q[q_n].script = NULL;
+	q_n++;
+}
+
 static void
 put_summary(const uint8_t * b, size_t n)
 {
@@ -117,6 +151,238 @@ put_summary(const uint8_t * b, size_t n)
 	hc_puthex(b, 32);
 	printf(" last=");
 	hc_puthex(b + n - 32, 32);
+}
+
+/* what `read` prints: outcome and bytes (twice: L1 | L2), then the generator's statics (white-box) and the queue */
+static void
+put_read_line(int rc, const uint8_t * buf, size_t n)
+{
+
+	if (rc == 0) {
+		printf("ok ");
+		put_summary(buf, n);
+		printf(" | ok ");
+		put_summary(buf, n);
+	} else
+		printf("fail | fail");
+#ifdef HC_BLACKBOX
+	printf(" q=%zu", q_n - q_pos);
+#else
+	printf(" K=");
+	hc_puthex(drbg.Key, 32);
+	printf(" V=");
+	hc_puthex(drbg.V, 32);
+	printf(" ctr=%lu inst=%d q=%zu", (unsigned long)drbg.reseed_counter,
+	    instantiated, q_n - q_pos);
+#endif
+}
+
+/*
+ * bigread <n> <tail> full|cmp
+ *
+ * A shared anonymous mapping holds n + tail bytes ending at a PROT_NONE page (an overrun faults); every byte is
+ * preset to a sentinel (piece i: 0xA5 + 7 i).  A forked child -- same generator state, same queue of OS answers --
+ * makes ONE crypto_entropy_read(buf, n) and records its return value, the number of OS answers it consumed and
+ * (white-box) the generator's statics.  Meanwhile this process makes the same request as calls of 65536 bytes and
+ * a last shorter one (a request of <= 65536 bytes, 0 included, is one call; it stops at the first call that fails)
+ * into an exact-size heap block, keeping two 64-bit checksums of each piece and the bytes of the windows: the first
+ * 64 bytes, 64 bytes around every multiple of 2^32, the last 48 bytes.  No second big buffer.
+ *
+ * `same <n>` is printed iff both ways agree: same return value, same number of OS answers consumed, same statics
+ * afterwards (white-box) and -- on success -- piece by piece the same bytes, the <tail> bytes after the buffer
+ * still holding their sentinel.  That is theorem C11.read_eq_chunks.  Otherwise `differ <n> ...` with the first
+ * differing piece and the windows of both.
+ *   full: the line continues with what `read <n>` prints (summary of the n bytes, statics) -- the model makes the call;
+ *   cmp:  the line continues with `first=<the first 64 bytes>` (or `first=fail` if the first piece fails) and every
+ *         later line of the case is answered `after-big`: the model makes the first of the chunked calls only
+ *         (2^32 bytes of HMAC_DRBG output are out of its reach).
+ */
+#define BIGLIM (((size_t)1 << 32) + ((size_t)1 << 20))
+#define BIGTAIL 65536
+#define PIECE ((size_t)65536)
+#define NWIN 8
+
+struct bigctl {
+	int done;
+	int rc;
+	size_t q_used;
+#ifndef HC_BLACKBOX
+	uint8_t Key[32], V[32];
+	uint32_t ctr;
+	int inst;
+#endif
+};
+
+static int dead;	/* a `bigread ... cmp` has been answered in this case */
+
+static void
+piece_sums(const uint8_t * p, size_t n, uint64_t h[2])
+{
+	uint64_t a = 0xcbf29ce484222325ULL, b = 0x9e3779b97f4a7c15ULL, w;
+	size_t i;
+
+	for (i = 0; i + 8 <= n; i += 8) {
+		memcpy(&w, p + i, 8);
+		a = (a ^ w) * 0x100000001b3ULL;
+		a ^= a >> 29;
+		b = (b + w) * 0xff51afd7ed558ccdULL;
+		b = (b << 31) | (b >> 33);
+	}
+	for (; i < n; i++) {
+		a = (a ^ p[i]) * 0x100000001b3ULL;
+		b = (b + p[i]) * 0xff51afd7ed558ccdULL;
+	}
+	h[0] = a;
+	h[1] = b;
+}
+
+static void
+bigread(size_t n, size_t tail, int full)
+{
+	size_t page = (size_t)sysconf(_SC_PAGESIZE);
+	size_t maplen = (n + tail + page - 1) / page * page;
+	size_t npieces = n ? (n - 1) / PIECE + 1 : 1;
+	size_t woff[NWIN], wlen[NWIN], nwin = 0;
+	uint8_t swin[NWIN][64];
+	uint8_t * map, * p, * cbuf;
+	struct bigctl * ctl;
+	uint64_t (* sums)[2], h[2];
+	size_t i, k, off, l, lo, hi, q0 = q_pos, seq_used, seq_done = 0, bad_piece = (size_t)-1, bad_tail = (size_t)-1;
+	int seq_rc = 0, status = 0, state_same = 1, first_ok = 0;
+	pid_t pid;
+
+	map = mmap(NULL, maplen + page, PROT_READ | PROT_WRITE, MAP_SHARED | MAP_ANONYMOUS | MAP_NORESERVE, -1, 0);
+	ctl = mmap(NULL, page, PROT_READ | PROT_WRITE, MAP_SHARED | MAP_ANONYMOUS, -1, 0);
+	if (map == MAP_FAILED || ctl == MAP_FAILED || mprotect(map + maplen, page, PROT_NONE) != 0)
+		abort();
+	p = map + (maplen - (n + tail));
+	for (off = 0; off < n + tail; off += PIECE)
+		memset(p + off, (int)(uint8_t)(0xA5 + 7 * (off / PIECE)), n + tail - off < PIECE ? n + tail - off : PIECE);
+	memset(ctl, 0, sizeof(*ctl));
+
+	/* the windows */
+	woff[nwin] = 0; wlen[nwin++] = n < 64 ? n : 64;
+	for (k = 1; k * ((size_t)1 << 32) - 32 < n && nwin < NWIN - 1; k++) {
+		woff[nwin] = k * ((size_t)1 << 32) - 32;
+		wlen[nwin] = n - woff[nwin] < 64 ? n - woff[nwin] : 64;
+		nwin++;
+	}
+	woff[nwin] = n > 48 ? n - 48 : 0; wlen[nwin] = n > 48 ? 48 : n; nwin++;
+	memset(swin, 0, sizeof(swin));
+
+	/* ONE call, in a child: same statics, same queue */
+	fflush(stdout);
+	if ((pid = fork()) == -1)
+		abort();
+	if (pid == 0) {
+		alarm(1150);		/* a call that never returns is a failure, not a hang of the check */
+		ctl->rc = crypto_entropy_read(p, n);
+		ctl->q_used = q_pos - q0;
+#ifndef HC_BLACKBOX
+		memcpy(ctl->Key, drbg.Key, 32);
+		memcpy(ctl->V, drbg.V, 32);
+		ctl->ctr = drbg.reseed_counter;
+		ctl->inst = instantiated;
+#endif
+		ctl->done = 1;
+		_exit(0);
+	}
+
+	/* the same request in pieces, here */
+	if ((sums = malloc(npieces * sizeof(*sums))) == NULL)
+		abort();
+	for (i = 0, off = 0; i < npieces; i++, off += l) {
+		l = n - off < PIECE ? n - off : PIECE;
+		cbuf = malloc(l ? l : 1);	/* exact size: ASan sees an overrun */
+		if (crypto_entropy_read(cbuf, l) != 0) {
+			seq_rc = -1;
+			free(cbuf);
+			break;
+		}
+		if (i == 0)
+			first_ok = 1;
+		piece_sums(cbuf, l, sums[i]);
+		for (k = 0; k < nwin; k++) {
+			lo = woff[k] > off ? woff[k] : off;
+			hi = woff[k] + wlen[k] < off + l ? woff[k] + wlen[k] : off + l;
+			if (lo < hi)
+				memcpy(&swin[k][lo - woff[k]], cbuf + (lo - off), hi - lo);
+		}
+		free(cbuf);
+		seq_done++;
+	}
+	seq_used = q_pos - q0;
+
+	while (waitpid(pid, &status, 0) == -1)
+		;
+	if (!WIFEXITED(status) || WEXITSTATUS(status) != 0 || !ctl->done) {
+		printf("differ %zu the-single-call-did-not-return wait-status=%d", n, status);
+		goto done;
+	}
+
+	/* compare */
+#ifndef HC_BLACKBOX
+	if (memcmp(ctl->Key, drbg.Key, 32) || memcmp(ctl->V, drbg.V, 32) || ctl->ctr != drbg.reseed_counter ||
+	    ctl->inst != instantiated)
+		state_same = 0;
+#endif
+	if (ctl->rc == 0 && seq_rc == 0) {
+		for (i = 0, off = 0; i < npieces; i++, off += l) {
+			l = n - off < PIECE ? n - off : PIECE;
+			piece_sums(p + off, l, h);
+			if (h[0] != sums[i][0] || h[1] != sums[i][1]) {
+				bad_piece = i;
+				break;
+			}
+		}
+		for (k = 0; k < tail; k++)
+			if (p[n + k] != (uint8_t)(0xA5 + 7 * ((n + k) / PIECE))) {
+				bad_tail = k;
+				break;
+			}
+	}
+	if ((ctl->rc == 0) == (seq_rc == 0) && ctl->q_used == seq_used && state_same && bad_piece == (size_t)-1 &&
+	    bad_tail == (size_t)-1) {
+		printf("same %zu ", n);
+		if (full)
+			put_read_line(ctl->rc, p, n);
+		else {
+			for (k = 0; k < 2; k++) {
+				printf(k ? " | first=" : "first=");
+				if (first_ok)
+					hc_puthex(swin[0], wlen[0]);
+				else
+					printf("fail");
+			}
+			dead = 1;
+		}
+	} else {
+		printf("differ %zu single-call=%s pieces=%s(%zu of %zu made) os-answers-used=%zu/%zu", n,
+		    ctl->rc == 0 ? "ok" : "fail", seq_rc == 0 ? "ok" : "fail", seq_done, npieces, ctl->q_used, seq_used);
+		if (bad_piece != (size_t)-1)
+			printf(" first-differing-piece=%zu(bytes-from-%zu)", bad_piece, bad_piece * PIECE);
+		if (bad_tail != (size_t)-1)
+			printf(" sentinel-after-the-buffer-overwritten-at=+%zu", bad_tail);
+		if (!state_same)
+			printf(" statics-differ");
+		if (ctl->rc == 0) {
+			printf(" single-call:");
+			for (k = 0; k < nwin; k++) {
+				printf(" @%zu:", woff[k]);
+				hc_puthex(p + woff[k], wlen[k]);
+			}
+		}
+		printf(" pieces:");
+		for (k = 0; k < nwin; k++) {
+			printf(" @%zu:", woff[k]);
+			hc_puthex(swin[k], wlen[k]);
+		}
+		dead = 1;
+	}
+done:
+	free(sums);
+	munmap(map, maplen + page);
+	munmap(ctl, page);
 }
 
 int
@@ -138,7 +404,26 @@ main(void)
 			instantiated = 0;
 #endif
 			q_reset();
+			dead = 0;
 			printf("case %s", hc_tok[1]);
+		} else if (dead) {
+			printf("after-big");
+		} else if (hc_is("entgen", 3)) {
+			size_t cnt = (size_t)strtoull(hc_tok[1], NULL, 10), len = (size_t)strtoull(hc_tok[2], NULL, 10), gi;
+
+			if (cnt > 4096 || len > 4096)
+				printf("bad-op");
+			else {
+				for (gi = 0; gi < cnt; gi++)
+					q_push_gen((uint32_t)strtoull(hc_tok[3], NULL, 10), (uint32_t)gi, len);
+				printf("ent | %zu", q_n - q_pos);
+			}
+		} else if (hc_is("bigread", 3) && (!strcmp(hc_tok[3], "full") || !strcmp(hc_tok[3], "cmp"))) {
+			n = (size_t)strtoull(hc_tok[1], NULL, 10);
+			if (n > BIGLIM || strtoull(hc_tok[2], NULL, 10) > BIGTAIL)
+				printf("bad-op");
+			else
+				bigread(n, (size_t)strtoull(hc_tok[2], NULL, 10), !strcmp(hc_tok[3], "full"));
 		} else if (hc_is("ent", 1)) {
 			q_push(hc_tok[1], NULL, NULL);
 			printf("ent | %zu", q_n - q_pos);
@@ -151,23 +436,7 @@ main(void)
 			n = (size_t)strtoull(hc_tok[1], NULL, 10);
 			buf = malloc(n ? n : 1);	/* exact size: ASan sees an overrun */
 			rc = crypto_entropy_read(buf, n);
-			if (rc == 0) {
-				printf("ok ");
-				put_summary(buf, n);
-				printf(" | ok ");
-				put_summary(buf, n);
-			} else
-				printf("fail | fail");
-#ifdef HC_BLACKBOX
-			printf(" q=%zu", q_n - q_pos);
-#else
-			printf(" K=");
-			hc_puthex(drbg.Key, 32);
-			printf(" V=");
-			hc_puthex(drbg.V, 32);
-			printf(" ctr=%lu inst=%d q=%zu", (unsigned long)drbg.reseed_counter,
-			    instantiated, q_n - q_pos);
-#endif
+			put_read_line(rc, buf, n);
 			free(buf);
 		} else {
 			printf("bad-op");
